@@ -463,6 +463,31 @@ pub fn map_space(tb: &Tables, tier: Tier) -> Vec<Maps> {
         out.push(Maps { v: vec![], o: vec![(i * 3, mixed.clone())], q: vec![] });
         out.push(Maps { v: vec![], o: vec![], q: vec![(i % nq, mixed.clone())] });
     }
+    // names that are prefixes / extensions of one another in CONSECUTIVE patterns (the last file of one section, the first of the
+    // next), in both orders; names with quote characters, a backslash, a control character
+    {
+        let one = |n: &str, l: i32| -> Files { vec![(n.to_string(), [l].into_iter().collect())] };
+        for (a, b) in [("Vault.sol.old.sol", "Vault.sol"), ("Vault.sol", "Vault.sol.old.sol"), ("Vault.sol", "Vault.sol"), ("V.sol:1", "V.sol"), ("", "A.sol"), ("A.sol", "")] {
+            for i in 0..nq {
+                out.push(Maps { v: vec![], o: vec![], q: vec![(i, one(a, 3)), ((i + 1) % nq, one(b, 5))] });
+            }
+            for i in 0..nv {
+                out.push(Maps { v: vec![(i, one(a, 3)), ((i + 1) % nv, one(b, 5))], o: vec![], q: vec![] });
+            }
+            for i in 0..no {
+                out.push(Maps { v: vec![], o: vec![(i, one(a, 3)), ((i + 1) % no, one(b, 5))], q: vec![] });
+            }
+        }
+        for (k, n) in ["Owner's.sol", "\"quoted\".sol", "back\\slash.sol", "bell\u{7}.sol", "nul\u{0}.sol", "trailing .sol", " leading.sol", "dot..sol", "semi;colon.sol", "percent%41.sol", "amp&amp;.sol", "<b>.sol"].iter().enumerate() {
+            out.push(Maps { v: vec![(k % nv, one(n, 2))], o: vec![(k % no, one(n, 2))], q: vec![(k % nq, one(n, 2))] });
+        }
+    }
+    // the number of entries of ONE (pattern, file) and of one category on both sides of 16 bits
+    for (nfiles, nlines) in [(1usize, 65_536usize), (2, 40_000)] {
+        let many: Files = (0..nfiles).map(|f| (format!("Big{}.sol", f), (1..=nlines as i32).collect())).collect();
+        out.push(Maps { v: vec![(nfiles % nv, many.clone())], o: vec![], q: vec![] });
+        out.push(Maps { v: vec![], o: vec![(nfiles % no, many.clone())], q: vec![(nfiles % nq, many)] });
+    }
     for (nfiles, nlines) in [(1usize, 1001usize), (3, 1100), (101, 1), (150, 2), (1200, 1)] {
         let many: Files = (0..nfiles).map(|f| (format!("F{:04}.sol", f), (1..=nlines as i32).map(|l| l * 3).collect())).collect();
         out.push(Maps { v: vec![], o: vec![(nfiles % no, many.clone())], q: vec![] });
